@@ -3,6 +3,7 @@
 export GOFLAGS=-mod=mod GOPROXY=off GOSUMDB=off GOTOOLCHAIN=local
 cd /verif/go || exit 2
 go build -tags verif -overlay overlay.json -o bin/corr ./corr || exit 2
+[ "$1" = "C11" ] && { go build -race -tags verif -overlay overlay.json -o bin/corr-race ./corr || exit 2; }
 rm -rf /verif/.run/t
 ./bin/corr run "$1" "$2" "$3" /verif/.run/t ${4:-quick} || exit 2
 /verif/lean/.lake/build/bin/driver < /verif/.run/t/cases.txt > /verif/.run/t/model.txt
